@@ -214,14 +214,6 @@ with tys_eqb (a b : tys) : bool :=
   | _, _ => false
   end.
 
-(* Python `==` on the scalars that may appear in Literal[...]: True == 1, False == 0. *)
-Definition py_scalar_eq (a b : lit) : bool :=
-  match a, b with
-  | LitBool x, LitInt y => Z.eqb (if x then 1 else 0)%Z y
-  | LitInt x, LitBool y => Z.eqb x (if y then 1 else 0)%Z
-  | _, _ => lit_eqb a b
-  end.
-
 (* ---- the leaf oracle ----------------------------------------------------------
    conv l in_optional v : what the generated leaf expression for annotation l
    evaluates to on input v (value, or the exception it raises).
